@@ -130,7 +130,7 @@ func c18Run(t *testing.T, p c18Plan) (res vfResult) {
 		vfRolloutSet(r, "s0", 50, []string{"vip"})
 		if p.Restore {
 			vfPause(r, "s1", 100*time.Millisecond, 500*time.Millisecond)
-			nr := NewRouter(r.statePath)
+			nr := vfNewRouter(vfPathOf(r))
 			if err := nr.RestoreLastSavedState(); err != nil {
 				res.failf("restore-failed", "%v", err)
 				return
